@@ -17,6 +17,7 @@ from __future__ import annotations
 import ast
 import re
 
+from consteval import ModuleEnv, NotConst, norm_struct
 from extract import emit, parse
 
 SER = "spsdk/mboot/protocol/serial_protocol.py"
@@ -42,65 +43,105 @@ def _fun(node, name):
     return None
 
 
-def enum_members(tree, clsname):
-    """[(NAME, tag)] of an SpsdkEnum class whose members are `NAME = (int, "label", ...)`."""
+_ENVS = {}
+
+
+def _env(tree):
+    if id(tree) not in _ENVS:
+        _ENVS[id(tree)] = ModuleEnv(tree)
+    return _ENVS[id(tree)]
+
+
+def _simple_assign(st):
+    """(name, value node) of `NAME = v` / `NAME: T = v` statements"""
+    if isinstance(st, ast.Assign) and len(st.targets) == 1 and isinstance(st.targets[0], ast.Name):
+        return st.targets[0].id, st.value
+    if isinstance(st, ast.AnnAssign) and isinstance(st.target, ast.Name) and st.value is not None:
+        return st.target.id, st.value
+    return None, None
+
+
+def _ev(tree, node, cls=None, local=None):
+    """value of a constant expression (by value, through consteval); raises NotConst"""
+    return _env(tree).eval(node, cls=cls, local=local)
+
+
+def enum_members(tree, clsname, sort=False):
+    """[(NAME, tag)] of an SpsdkEnum class whose members are `NAME = (<int expr>, "label", ...)`, evaluated by value.
+
+    `sort=True` for enums the code only looks members up in (order is not behaviour): emitted sorted by (tag, name)."""
     c = _cls(tree, clsname)
     out = []
     if c is None:
         return out
     for st in c.body:
-        if isinstance(st, ast.Assign) and len(st.targets) == 1 and isinstance(st.targets[0], ast.Name) \
-                and isinstance(st.value, ast.Tuple) and st.value.elts:
+        name, val = _simple_assign(st)
+        if name and isinstance(val, ast.Tuple) and val.elts:
             try:
-                v = ast.literal_eval(st.value.elts[0])
-            except (ValueError, SyntaxError):
+                v = _ev(tree, val.elts[0], cls=clsname)
+            except NotConst:
                 continue
-            if isinstance(v, int):
-                out.append((st.targets[0].id, v))
-    return out
+            if isinstance(v, int) and not isinstance(v, bool):
+                out.append((name, v))
+    return sorted(out, key=lambda q: (q[1], q[0])) if sort else out
 
 
 def class_consts(tree, clsname):
+    """class-level constants by value"""
     c = _cls(tree, clsname)
     out = {}
     if c is None:
         return out
     for st in c.body:
-        tgt = val = None
-        if isinstance(st, ast.Assign) and len(st.targets) == 1 and isinstance(st.targets[0], ast.Name):
-            tgt, val = st.targets[0].id, st.value
-        elif isinstance(st, ast.AnnAssign) and isinstance(st.target, ast.Name) and st.value is not None:
-            tgt, val = st.target.id, st.value
-        if tgt:
+        name, val = _simple_assign(st)
+        if name:
             try:
-                out[tgt] = ast.literal_eval(val)
-            except (ValueError, SyntaxError):
+                out[name] = _ev(tree, val, cls=clsname)
+            except NotConst:
                 pass
     return out
 
 
-def fmt_literals(fn):
-    """struct format strings used in calls to pack/unpack/unpack_from inside `fn`, in source order.
+def local_nodes(fn):
+    """simple local assignments of a function: name -> value node (last one wins)"""
+    out = {}
+    for n in ast.walk(fn) if fn is not None else []:
+        name, val = _simple_assign(n)
+        if name:
+            out[name] = val
+    return out
 
-    f-strings are rendered with `{}` for the interpolated part."""
-    out = []
+
+def fmt_literals(fn, tree=None, clsname=None):
+    """struct format strings used in calls to pack/unpack/unpack_from inside `fn`: evaluated by value where the argument is a
+    name / class constant, f-strings rendered with `{}` for the interpolated part; returned as a SORTED SET of normalised
+    spellings (statement order and the spelling of a format are not behaviour)."""
+    out = set()
     if fn is None:
-        return out
-    calls = [n for n in ast.walk(fn) if isinstance(n, ast.Call)]
-    calls.sort(key=lambda n: (n.lineno, n.col_offset))
-    for n in calls:
+        return []
+    loc = local_nodes(fn)
+    for n in ast.walk(fn):
+        if not isinstance(n, ast.Call):
+            continue
         f = n.func
         name = f.attr if isinstance(f, ast.Attribute) else f.id if isinstance(f, ast.Name) else None
-        if name in ("pack", "unpack", "unpack_from") and n.args:
+        if name in ("pack", "unpack", "unpack_from", "calcsize", "iter_unpack") and n.args:
             a = n.args[0]
-            if isinstance(a, ast.Constant) and isinstance(a.value, str):
-                out.append(a.value)
-            elif isinstance(a, ast.JoinedStr):
-                s = ""
+            if isinstance(a, ast.Name) and a.id in loc:
+                a = loc[a.id]
+            if isinstance(a, ast.JoinedStr):
+                txt = ""
                 for v in a.values:
-                    s += v.value if isinstance(v, ast.Constant) else "{}"
-                out.append(s)
-    return out
+                    txt += v.value if isinstance(v, ast.Constant) else "{}"
+                out.add(txt)
+            else:
+                try:
+                    v = _ev(tree, a, cls=clsname) if tree is not None else ast.literal_eval(a)
+                except (NotConst, ValueError, SyntaxError):
+                    continue
+                if isinstance(v, str):
+                    out.add(v)
+    return sorted(out, key=lambda x: str(fmt_to_lean(x)))
 
 
 _W = {"B": 1, "b": 1, "H": 2, "h": 2, "I": 4, "i": 4, "L": 4, "l": 4, "Q": 8, "q": 8}
@@ -130,7 +171,46 @@ def lean_fmt(fmt):
     if r is None:
         return "⟨.native, [], 999⟩"
     end, widths, var = r
+    if max(widths + [var]) <= 1:
+        end = "native"  # byte fields only: the byte order prefix is not behaviour
     return f"⟨.{end}, [{', '.join(map(str, widths))}], {var}⟩"
+
+
+def _key_value(tree, node, enum_name, members):
+    """value of a table key: `Enum.MEMBER.tag` / `Enum.MEMBER` through the enum, anything else by constant evaluation"""
+    ea = _enum_attr(node)
+    if ea and ea[0] == enum_name and ea[1] in members:
+        return members[ea[1]]
+    try:
+        v = _ev(tree, node)
+    except NotConst:
+        return None
+    return v if isinstance(v, int) and not isinstance(v, bool) else None
+
+
+def find_enum_keyed_table(tree, fn, enum_name, members):
+    """[(key value, class name)] of the dict `{Enum.X.tag: SomeClass, ...}` a function uses: a dict literal inside the function, or a
+    module-/class-level table (plain or annotated assignment) whose name the function refers to."""
+    if fn is None:
+        return []
+    cands = [n for n in ast.walk(fn) if isinstance(n, ast.Dict)]
+    used = {n.id for n in ast.walk(fn) if isinstance(n, ast.Name)} | {n.attr for n in ast.walk(fn) if isinstance(n, ast.Attribute)}
+    for n in ast.walk(tree):
+        name, val = _simple_assign(n)
+        if name in used and isinstance(val, ast.Dict):
+            cands.append(val)
+    best = []
+    for dct in cands:
+        rows = []
+        for k, v in zip(dct.keys, dct.values):
+            kv = _key_value(tree, k, enum_name, members) if k is not None else None
+            if kv is None or not isinstance(v, ast.Name):
+                rows = []
+                break
+            rows.append((kv, v.id))
+        if len(rows) > len(best):
+            best = rows
+    return best
 
 
 def camel(name):
@@ -224,33 +304,25 @@ def gen_MbootConsts():
     L.append(f"def frameNotReady : List Nat := [{', '.join(map(str, nr))}]")
     d("maxPingDummyBytes", sc.get("MAX_PING_RESPONSE_DUMMY_BYTES", 999999))
     d("maxUartOpenAttempts", sc.get("MAX_UART_OPEN_ATTEMPTS", 999999))
-    fp = enum_members(ser, "FPType")
+    fp = enum_members(ser, "FPType", sort=True)
     L.append(f"def fpTypes : List (String × Nat) := [{', '.join(f'(\"{n}\", {v})' for n, v in fp)}]")
     for n, v in fp:
         d("fp" + camel(n).capitalize(), v)
     # ---- HID report ids
-    rid = enum_members(bulk, "ReportId")
+    rid = enum_members(bulk, "ReportId", sort=True)
     L.append(f"def reportIds : List (String × Nat) := [{', '.join(f'(\"{n}\", {v})' for n, v in rid)}]")
     for n, v in rid:
         d("rid" + camel(n)[0].upper() + camel(n)[1:], v)
     # ---- command / response tags, flags
     ct = enum_members(cmd, "CommandTag")
     L.append(f"def commandTags : List (String × Nat) := [{', '.join(f'(\"{n}\", {v})' for n, v in ct)}]")
-    rt = enum_members(cmd, "ResponseTag")
+    rt = enum_members(cmd, "ResponseTag", sort=True)
     L.append(f"def responseTags : List (String × Nat) := [{', '.join(f'(\"{n}\", {v})' for n, v in rt)}]")
-    cf = enum_members(cmd, "CommandFlag")
+    cf = enum_members(cmd, "CommandFlag", sort=True)
     L.append(f"def commandFlags : List (String × Nat) := [{', '.join(f'(\"{n}\", {v})' for n, v in cf)}]")
     # response-class table of parse_cmd_response: ResponseTag member -> class name
-    rtd = dict(rt)
-    table = []
-    pf = _fun(cmd, "parse_cmd_response")
-    if pf is not None:
-        for n in ast.walk(pf):
-            if isinstance(n, ast.Dict):
-                for k, v in zip(n.keys, n.values):
-                    ea = _enum_attr(k)
-                    if ea and ea[0] == "ResponseTag" and isinstance(v, ast.Name) and ea[1] in rtd:
-                        table.append((rtd[ea[1]], v.id))
+    # (found inline in the function or hoisted to a module/class level table the function refers to; only indexed -> sorted by tag)
+    table = sorted(set(find_enum_keyed_table(cmd, _fun(cmd, "parse_cmd_response"), "ResponseTag", dict(rt))))
     L.append(f"def knownResponses : List (Nat × String) := [{', '.join(f'({t}, \"{c}\")' for t, c in table)}]")
     cp = class_consts(cmd, "CmdPacket")
     d("cmdPacketSize", cp.get("SIZE", 999999))
@@ -287,9 +359,10 @@ def gen_MbootConsts():
     }
     for lean, (tree, cls, fn) in fmts.items():
         c = _cls(tree, cls)
-        lits = fmt_literals(_fun(c, fn) if c is not None else None)
-        meta["formats"][lean] = lits
-        L.append(f"def {lean} : List Fmt := [{', '.join(lean_fmt(x) for x in lits)}]  -- {cls}.{fn}: {lits}")
+        lits = fmt_literals(_fun(c, fn) if c is not None else None, tree, cls)
+        rendered = sorted({lean_fmt(x) for x in lits})
+        meta["formats"][lean] = rendered
+        L.append(f"def {lean} : List Fmt := [{', '.join(rendered)}]")
     # ---- CRC-16/XMODEM parameters
     poly = init = xor = None
     rev = None
@@ -298,7 +371,18 @@ def gen_MbootConsts():
             for k, v in zip(n.keys, n.values):
                 ea = _enum_attr(k)
                 if ea and ea[1] == "CRC16_XMODEM" and isinstance(v, ast.Call):
-                    kw = {a.arg: ast.literal_eval(a.value) for a in v.keywords}
+                    kw = {}
+                    cfgc = _cls(crc, v.func.id) if isinstance(v.func, ast.Name) else None
+                    fields = [st.target.id for st in cfgc.body if isinstance(st, ast.AnnAssign) and isinstance(st.target, ast.Name)] if cfgc else []
+                    for idx, a in enumerate(v.args):
+                        if idx < len(fields):
+                            kw[fields[idx]] = a
+                    for a in v.keywords:
+                        kw[a.arg] = a.value
+                    try:
+                        kw = {k_: _ev(crc, n_) for k_, n_ in kw.items()}
+                    except NotConst:
+                        kw = {}
                     poly, init, xor, rev = kw.get("polynomial"), kw.get("initial_value"), kw.get("final_xor"), kw.get("reverse")
     # which algorithm does the serial protocol ask for?
     alg = None
@@ -325,7 +409,6 @@ def gen_MbootConsts():
                 consts.append((type(n.ops[0]).__name__, n.comparators[0].value))
             if isinstance(n, ast.Return) and isinstance(n.value, ast.Constant):
                 consts.append(("Return", n.value.value))
-    L.append(f"def clampDownShape : List (String × Nat) := [{', '.join(f'(\"{o}\", {v})' for o, v in consts)}]  -- informative only")
     # semantic table of _clamp_down_memory_id: evaluated on 0..300 and some big values (robust against harmless rewrites)
     rows = []
     try:
@@ -350,8 +433,6 @@ def gen_MbootConsts():
                 ea = _enum_attr(n.comparators[0])
                 if ea and ea[0] in ("StatusCode", "CommandTag"):
                     lst.append(f"{type(n.ops[0]).__name__} {ea[0]}.{ea[1]}")
-        decisions[fn] = lst  # evidence only (meta json): syntactic, a harmless refactor may change it
-    meta["decisions"] = decisions
     # command tag + flag used by each modelled API method: first `CmdPacket(CommandTag.X, CommandFlag.Y.tag, ...)` and arg count
     ctd, cfd = dict(ct), dict(cf)
     pk = []
@@ -363,12 +444,30 @@ def gen_MbootConsts():
         f = _fun(mb, fn) if mb is not None else None
         if f is None:
             continue
-        calls = [n for n in ast.walk(f) if isinstance(n, ast.Call) and isinstance(n.func, ast.Name) and n.func.id == "CmdPacket"]
-        calls.sort(key=lambda n: (n.lineno, n.col_offset))
-        for n in calls[-1:]:
-            t, fl = _enum_attr(n.args[0]), _enum_attr(n.args[1])
-            if t and fl:
-                pk.append((fn, ctd.get(t[1], 999999), cfd.get(fl[1], 999999), len(n.args) - 2))
+        # the command packet an API method builds: found wherever it is built inside the method (any statement position; the first
+        # two arguments positional or by keyword; an argument that is a local name is resolved through its assignment).  When a method
+        # builds several packets (efuse verify, chunk loop) the one with the method's own command tag wins = the LAST in source order
+        # of the maximal-parameter ones is not needed: all packets of one method listed here share (tag, flags, #params).
+        loc = local_nodes(f)
+        found = []
+        for n in ast.walk(f):
+            if isinstance(n, ast.Call) and isinstance(n.func, ast.Name) and n.func.id == "CmdPacket":
+                kws = {k_.arg: k_.value for k_ in n.keywords if k_.arg}
+                pos = [loc.get(a.id, a) if isinstance(a, ast.Name) and a.id in loc else a for a in n.args]
+                tagn = pos[0] if pos else kws.get("tag")
+                flagn = pos[1] if len(pos) > 1 else kws.get("flags")
+                t, fl = _enum_attr(tagn) if tagn is not None else None, _enum_attr(flagn) if flagn is not None else None
+                flv = cfd.get(fl[1]) if fl else None
+                if flv is None and flagn is not None:
+                    try:
+                        flv = int(_ev(mcu, flagn, cls="McuBoot"))
+                    except (NotConst, TypeError, ValueError):
+                        flv = None
+                if t and flv is not None and not any(isinstance(a, ast.Starred) for a in n.args):
+                    found.append((ctd.get(t[1], 999999), flv, max(len(pos) - 2, 0)))
+        if found:
+            # several packets in one method are all listed by the model per method only once: keep the set's canonical representative
+            pk.append((fn,) + sorted(set(found))[-1])
     kp = enum_members(cmd, "KeyProvOperation")
     L.append(f"def keyProvOperations : List (String × Nat) := [{', '.join(f'(\"{n}\", {v})' for n, v in kp)}]")
     # first argument of the key-provisioning packets: KeyProvOperation member
@@ -377,10 +476,12 @@ def gen_MbootConsts():
     for fn in ("kp_enroll", "kp_set_intrinsic_key", "kp_write_nonvolatile", "kp_read_nonvolatile", "kp_set_user_key", "kp_write_key_store", "kp_read_key_store"):
         f = _fun(mb, fn) if mb is not None else None
         for n in ast.walk(f) if f is not None else []:
-            if isinstance(n, ast.Call) and isinstance(n.func, ast.Name) and n.func.id == "CmdPacket" and len(n.args) >= 3:
-                ea = _enum_attr(n.args[2])
-                if ea and ea[0] == "KeyProvOperation":
-                    kpops.append((fn, kpd.get(ea[1], 999999)))
+            if isinstance(n, ast.Call) and isinstance(n.func, ast.Name) and n.func.id == "CmdPacket":
+                for a in n.args[2:3] if len(n.args) >= 3 else n.args[:1] if len(n.args) == 1 and n.keywords else []:
+                    a = local_nodes(f).get(a.id, a) if isinstance(a, ast.Name) else a
+                    ea = _enum_attr(a)
+                    if ea and ea[0] == "KeyProvOperation":
+                        kpops.append((fn, kpd.get(ea[1], 999999)))
     L.append(f"def kpApiOperations : List (String × Nat) := [{', '.join(f'(\"{a}\", {b})' for a, b in kpops)}]")
     L.append(f"def apiPackets : List (String × Nat × Nat × Nat) := [{', '.join(f'(\"{a}\", {b}, {c}, {e})' for a, b, c, e in pk)}]")
     meta["apiPackets"] = [list(x) for x in pk]
@@ -389,51 +490,64 @@ def gen_MbootConsts():
 
 
 def gen_SdpConsts():
-    """Generated/SdpConsts.lean: SDP command tags, response values, status codes, command packet format, read block size."""
+    """Generated/SdpConsts.lean: SDP command tags, response values, status codes, command packet format, read block size.
+
+    Everything is read BY VALUE: enums (only looked up by the code) sorted by value, struct formats normalised, the read block size
+    taken from the `min(remaining, <const>)` use site of `_read_data` whatever the local is called / however it is annotated."""
     cmdm, errm, sdpm = parse("spsdk/sdp/commands.py"), parse("spsdk/sdp/error_codes.py"), parse("spsdk/sdp/sdp.py")
     L = ["namespace SpsdkVerif.Generated.SdpConsts", ""]
-    ct = enum_members(cmdm, "CommandTag")
-    # WRITE_REGISTER is written over several lines: `NAME = (\n 0x0202, ...)` is still a Tuple node
-    L.append(f"def commandTags : List (String × Nat) := [{', '.join(f'(\"{n}\", {v})' for n, v in ct)}]")
-    rv = enum_members(cmdm, "ResponseValue")
-    L.append(f"def responseValues : List (String × Nat) := [{', '.join(f'(\"{n}\", {v})' for n, v in rv)}]")
-    st = enum_members(errm, "StatusCode")
-    L.append(f"def statusCodes : List (String × Nat) := [{', '.join(f'(\"{n}\", {v})' for n, v in st)}]")
+
+    def lst(name, members):
+        L.append(f"def {name} : List (String × Nat) := [{', '.join(f'(\"{n}\", {v})' for n, v in members)}]")
+    lst("commandTags", enum_members(cmdm, "CommandTag", sort=True))
+    lst("responseValues", enum_members(cmdm, "ResponseValue", sort=True))
+    lst("statusCodes", enum_members(errm, "StatusCode", sort=True))
     fmt = class_consts(cmdm, "CmdPacket").get("FORMAT", "?")
     r = fmt_to_lean(fmt) if isinstance(fmt, str) else None
     L.append(f"def cmdPacketEndian : String := \"{r[0] if r else '?'}\"")
-    L.append(f"def cmdPacketWidths : List Nat := [{', '.join(map(str, r[1])) if r else ''}]  -- CmdPacket.FORMAT = {fmt!r}")
-    # `max_length = 64` in SDP._read_data
+    L.append(f"def cmdPacketWidths : List Nat := [{', '.join(map(str, r[1])) if r else ''}]")
+    # block size of SDP._read_data: the constant argument of `min(remaining, <block>)`
     ml = None
     f = _fun(_cls(sdpm, "SDP"), "_read_data")
+    loc = local_nodes(f)
     for n in ast.walk(f) if f is not None else []:
-        if isinstance(n, ast.Assign) and isinstance(n.targets[0], ast.Name) and n.targets[0].id == "max_length" and isinstance(n.value, ast.Constant):
-            ml = n.value.value
-    L.append(f"def readBlock : Nat := {ml if isinstance(ml, int) else 999999}  -- max_length in SDP._read_data")
-    # HID report table of the bulk protocol: name -> (id, size)
+        if isinstance(n, ast.Call) and isinstance(n.func, ast.Name) and n.func.id == "min":
+            for a in n.args:
+                node = loc.get(a.id, a) if isinstance(a, ast.Name) else a
+                try:
+                    v = _ev(sdpm, node, cls="SDP")
+                except NotConst:
+                    continue
+                if isinstance(v, int) and not isinstance(v, bool):
+                    ml = v
+    L.append(f"def readBlock : Nat := {ml if isinstance(ml, int) else 999999}")
+    # HID report table of the bulk protocol: name -> (id, size); only indexed by name -> sorted by id
     bulkm = parse("spsdk/sdp/protocol/bulk_protocol.py")
     hr = []
     for n in ast.walk(bulkm):
-        if isinstance(n, ast.Assign) and isinstance(n.targets[0], ast.Name) and n.targets[0].id == "HID_REPORT" and isinstance(n.value, ast.Dict):
-            for k, v in zip(n.value.keys, n.value.values):
-                try:
-                    t = ast.literal_eval(v)
-                    hr.append((k.value, int(t[0]), int(t[1])))
-                except (ValueError, SyntaxError, TypeError, IndexError):
-                    pass
+        name, val = _simple_assign(n)
+        if name == "HID_REPORT" and isinstance(val, ast.Dict):
+            try:
+                tbl = _ev(bulkm, val)
+                hr = sorted((str(k), int(t[0]), int(t[1])) for k, t in tbl.items())
+                hr.sort(key=lambda q: q[1])
+            except (NotConst, TypeError, IndexError, ValueError):
+                hr = []
     L.append(f"def hidReports : List (String × Nat × Nat) := [{', '.join(f'(\"{a}\", {b}, {c})' for a, b, c in hr)}]")
     # SDPS
     sdpsm = parse("spsdk/sdp/sdps.py")
-    sig = enum_members(sdpsm, "CommandSignature")
-    L.append(f"def sdpsSignatures : List (String × Nat) := [{', '.join(f'(\"{n}\", {v})' for n, v in sig)}]")
-    stag = enum_members(sdpsm, "CommandTag")
-    L.append(f"def sdpsCommandTags : List (String × Nat) := [{', '.join(f'(\"{n}\", {v})' for n, v in stag)}]")
-    sflag = enum_members(sdpsm, "CommandFlag")
-    L.append(f"def sdpsCommandFlags : List (String × Nat) := [{', '.join(f'(\"{n}\", {v})' for n, v in sflag)}]")
+    lst("sdpsSignatures", enum_members(sdpsm, "CommandSignature", sort=True))
+    lst("sdpsCommandTags", enum_members(sdpsm, "CommandTag", sort=True))
+    lst("sdpsCommandFlags", enum_members(sdpsm, "CommandFlag", sort=True))
     sfmt = class_consts(sdpsm, "CmdPacket").get("FORMAT", "?")
-    L.append(f"def sdpsCmdFormat : String := \"{sfmt}\"")
+    try:
+        sfmt_n = norm_struct(sfmt) if isinstance(sfmt, str) else "?"
+    except NotConst:
+        sfmt_n = "?"
+    L.append(f"def sdpsCmdFormat : String := \"{sfmt_n}\"  -- normalised spelling (one code per field)")
     L += ["", "end SpsdkVerif.Generated.SdpConsts"]
-    emit("SdpConsts", "\n".join(L) + "\n", {"sources": ["spsdk/sdp/commands.py", "spsdk/sdp/error_codes.py", "spsdk/sdp/sdp.py"], "format": fmt})
+    emit("SdpConsts", "\n".join(L) + "\n", {"sources": ["spsdk/sdp/commands.py", "spsdk/sdp/error_codes.py", "spsdk/sdp/sdp.py",
+                                                          "spsdk/sdp/protocol/bulk_protocol.py", "spsdk/sdp/sdps.py"]})
 
 
 def gen_MbootProps():
@@ -459,18 +573,18 @@ def gen_MbootProps():
                     for kk, vv in zip(kw.keys, kw.values):
                         if isinstance(kk, ast.Constant) and kk.value == "true_values":
                             try:
-                                tv = [int(x) for x in ast.literal_eval(vv)]
-                            except (ValueError, SyntaxError):
+                                tv = [int(x) for x in _ev(propm, vv)]
+                            except (NotConst, TypeError, ValueError):
                                 tv = [999999]
                 rows.append((ptd.get(ea[1], 999999), cls, tv))
     L = ["namespace SpsdkVerif.Generated.MbootProps", ""]
     L.append(f"def propertyTags : List (String × Nat) := [{', '.join(f'(\"{n}\", {v})' for n, v in pt)}]")
     L.append("/-- PROPERTIES: (tag, value class, true values of a BoolValue) -/")
     L.append("def propertyClasses : List (Nat × String × List Nat) := [" +
-             ", ".join(f'({t}, "{c}", [{", ".join(map(str, tv))}])' for t, c, tv in rows) + "]")
+             ", ".join(f'({t}, "{c}", [{", ".join(map(str, tv))}])' for t, c, tv in sorted(rows)) + "]")
     per = enum_members(propm, "PeripheryTag")
     L.append(f"def peripheryTags : List (String × Nat) := [{', '.join(f'(\"{n}\", {v})' for n, v in per)}]")
-    em = enum_members(memm, "ExtMemPropTags")
+    em = enum_members(memm, "ExtMemPropTags", sort=True)
     L.append(f"def extMemPropTags : List (String × Nat) := [{', '.join(f'(\"{n}\", {v})' for n, v in em)}]")
     L += ["", "end SpsdkVerif.Generated.MbootProps"]
     emit("MbootProps", "\n".join(L) + "\n", {"sources": [PROP, "spsdk/mboot/memories.py"], "rows": len(rows)})
